@@ -369,7 +369,13 @@ func c07NullableN(c *Ctx, g *load.G, kind string, nv, isn *ast.FuncDecl, want st
 			rcv := recv
 			cj := sortedCopy(splitTop(canonText(strings.ReplaceAll(rt, recvI+".", rcv+"."), false), "&&"))
 			wantCj := sortedCopy([]string{"len(" + rcv + ".Chars)==0", "len(" + rcv + ".Ranges)==0", "len(" + rcv + ".UnicodeClasses)==0"})
-			if !(strings.Join(cj, "&&") == strings.Join(wantCj, "&&") || rt == recv+".IsNullable()") {
+			// the same as one test of the total: lengths are non-negative, so their sum is zero iff each is
+			sumForm := false
+			if len(cj) == 1 && strings.HasSuffix(cj[0], "==0") {
+				terms := sortedCopy(splitTop(strings.TrimSuffix(cj[0], "==0"), "+"))
+				sumForm = strings.Join(terms, "+") == strings.Join(sortedCopy([]string{"len(" + rcv + ".Chars)", "len(" + rcv + ".Ranges)", "len(" + rcv + ".UnicodeClasses)"}), "+")
+			}
+			if !(strings.Join(cj, "&&") == strings.Join(wantCj, "&&") || sumForm || rt == recv+".IsNullable()") {
 				okEmpty = false
 			}
 		}
